@@ -243,3 +243,15 @@ def exact_type_decider(ctx, cfg, varname, tp):
             return None
         return None
     return decide
+
+
+def expiry_field(ctx):
+    """the AsyncResult field holding the deadline: the one __init__ binds to a Timeout(...)"""
+    f = ctx.func("rpyc.core.async_.AsyncResult.__init__")
+    out = []
+    for n in A.walk(f.node):
+        if isinstance(n, ast.Assign) and isinstance(n.value, ast.Call) and A.call_name(n.value) == "Timeout":
+            a = self_attr(n.targets[0])
+            if a:
+                out.append(a)
+    return out[0] if len(out) == 1 else "_ttl"
